@@ -90,7 +90,17 @@ def scen_decoder_forms(env, cfg):
 def scen_hdd(env, cfg):
     P = env.lib.ppm
     M, nsym = cfg['M'], cfg['nsym']
-    slots = env.bits('x', M * nsym)
+    if cfg.get('prefix'):
+        # large orders: each symbol has its first k slots ON (k symbolic over the listed counts, the extremes 0 and M included)
+        slots = []
+        for sy in range(nsym):
+            which = env.int(f'which{sy}', 0, len(cfg['prefix']) - 1)
+            k = cfg['prefix'][-1]
+            for j in range(len(cfg['prefix']) - 2, -1, -1):
+                k = env.ite(which == j, cfg['prefix'][j], k)
+            slots += [env.ite(i < k, 1, 0) for i in range(M)]
+    else:
+        slots = env.bits('x', M * nsym)
     arg = env.arr(list(slots), dtype=bool)
     snap = env.snap(arg)
     out = P.HDD(arg, M)
@@ -209,6 +219,9 @@ def configs(tier):
     hd = [(2, 3), (4, 2), (8, 1)] if q else [(2, 3), (2, 5), (4, 2), (4, 3), (8, 1), (8, 2), (16, 1)]
     for M, nsym in hd:
         out.append((f'hdd-M{M}-x{nsym}', scen_hdd, dict(M=M, nsym=nsym), {}))
+    for M in ((256,) if q else (32, 64, 128, 256)):
+        out.append((f'hdd-M{M}-x1-prefix-counts', scen_hdd, dict(M=M, nsym=1, prefix=[0, 1, 2, M - 1, M]),
+                    {'limits': {'max_branches': 4000, 'max_paths': 40}}))
     out.append(('hdd-sdd-reject-M', scen_hdd_reject, dict(kind='M'), {}))
     out.append(('hdd-sdd-reject-length', scen_hdd_reject, dict(kind='len'), {}))
     for M, nsym in ((2, 2), (4, 1), (4, 2)) if q else ((2, 1), (2, 2), (4, 1), (4, 2), (8, 1)):
